@@ -41,6 +41,8 @@ EXPLANATION = (
     "R10 NetworkGraph._generate_edge_equation / _add_edge_buffer / _add_matrix_delay: every variable record registered under a key that "
     "varies with an enclosing loop owns its 'value' object (an immutable scalar, created inside that loop, or the loop's own element) - "
     "never one mutable allocation made outside the loop and stored under several names (reaching definitions on the inlined views).  "
+    "R11 NetworkGraph._add_edge_buffer: when delayed projections are merged into shared buffer slots (first-occurrence registry), the slot "
+    "key draws on every per-projection sequence that is then reduced to one entry per slot (source element, delay, spread).  "
     "NOT decided: the choice of the sparseness threshold, equality of trajectories, user edge dictionaries that already contain "
     "source_idx/target_idx."
 )
